@@ -145,6 +145,51 @@ def exc_site(exc) -> str:
 
 
 CAST_TARGETS = [pc.Int8(), pc.Int16(), pc.Int32(), pc.Int64(), pc.UInt8(), pc.UInt16(), pc.UInt32(), pc.UInt64(), pc.Float32(), pc.Float64(), pc.String(), pc.Date(), pc.Datetime()]
+NULL_LIT_TYPES = [pc.Int64(), pc.Float64(), pc.String(), pc.Bool(), pc.Date(), pc.Datetime()]
+
+
+def compute_misc(tables, outcomes, viol):
+    """typed null literals; non-strict casts of columns, literals and aggregates"""
+    n = 0
+    cases = []
+    for dt in NULL_LIT_TYPES:
+        cases.append((f"lit_none|{type(dt).__name__}", "mutate", lambda t, dt=dt: t >> pdt.mutate(z=pdt.lit(None, dt))))
+    for tgt in CAST_TARGETS[:10]:
+        tn = type(tgt).__name__
+        cases.append((f"cast_nonstrict|i->{tn}", "mutate", lambda t, tgt=tgt: t >> pdt.mutate(z=t.i.cast(tgt, strict=False))))
+        cases.append((f"cast_nonstrict|lit->{tn}", "mutate", lambda t, tgt=tgt: t >> pdt.mutate(z=pdt.lit(3).cast(tgt, strict=False))))
+        cases.append((f"cast_nonstrict|count->{tn}", "summarize", lambda t, tgt=tgt: t >> pdt.group_by(t.g) >> pdt.summarize(z=t.i.count().cast(tgt, strict=False))))
+    for label, vname, mk in cases:
+        for be, tbl in tables.items():
+            key = f"misc|{label}|{be}|{vname}"
+            try:
+                q = mk(tbl)
+            except (T.DataTypeError, TypeError) as e:
+                if isinstance(e, T.DataTypeError):
+                    break
+                outcomes[key] = "verb!TypeError"
+                viol.append(dict(oracle="O19.1", op="misc", sig=label, what=f"{vname} with {label} on {be} raised TypeError: {str(e)[:120]}", features=dict(kind="verb", cls="TypeError", be=be)))
+                continue
+            except Exception as e:  # noqa: BLE001
+                outcomes[key] = "verb!" + type(e).__name__
+                if type(e).__name__ not in ("SubqueryError", "NotSupportedError"):
+                    viol.append(dict(oracle="O19.1", op="misc", sig=label, what=f"{vname} with {label} on {be} raised {type(e).__name__}: {str(e)[:120]}", features=dict(kind="verb", cls=type(e).__name__, be=be)))
+                continue
+            n += 1
+            if be == "polars":
+                r = sql_outcome(lambda q=q: q >> pdt.export(pdt.Polars(lazy=True)))
+                outcomes[key] = "plan" if r[0] == "ok" else "!" + r[1]
+                if r[0] != "ok" and r[1] != "NotSupportedError" and not (type(r[2]).__module__ or "").startswith("polars"):
+                    viol.append(dict(oracle="O19.4", op="misc", sig=label, what=f"polars: {label} raised {r[1]}: {str(r[2])[:120]}", features=dict(kind="impl", cls=r[1], be=be, verb=vname, site=exc_site(r[2]))))
+                continue
+            r = sql_outcome(lambda q=q: q >> pdt.build_query())
+            if r[0] != "ok":
+                outcomes[key] = "!" + r[1]
+                if r[1] not in ("NotSupportedError", "SubqueryError"):
+                    viol.append(dict(oracle="O19.4", op="misc", sig=label, what=f"{be}: build_query with {label} raised {r[1]}: {str(r[2])[:140]}", features=dict(kind="impl", cls=r[1], be=be, verb=vname, site=exc_site(r[2]))))
+                continue
+            outcomes[key] = hashlib.sha1(r[1].encode()).hexdigest()[:12]
+    return n
 
 
 def compute_casts(tables, outcomes, viol):
@@ -215,6 +260,19 @@ def compute(only_ops=None, order=None):
                         verbs = [("arrange", lambda t, e=expr: t >> pdt.arrange(e))]
                     elif op.ftype == Ftype.ELEMENT_WISE:
                         verbs = [("mutate", lambda t, e=expr: t >> pdt.mutate(z=e))]
+                        # the operator's result in other syntactic roles: ordering key, negated
+                        # predicate, argument of an aggregate / window function (computed argument)
+                        try:
+                            rt = T.without_const(expr.dtype())
+                        except Exception:  # noqa: BLE001
+                            rt = None
+                        if rt is not None and not isinstance(rt, pc.List):
+                            verbs.append(("arrange", lambda t, e=expr: t >> pdt.arrange(e)))
+                        if isinstance(rt, pc.Bool):
+                            verbs.append(("filter_not", lambda t, e=expr: t >> pdt.filter(~e)))
+                        if rt is not None and (rt.is_int() or rt.is_float()):
+                            verbs.append(("sum_of", lambda t, e=expr: t >> pdt.group_by(t.g) >> pdt.summarize(z=e.sum())))
+                            verbs.append(("shift_of", lambda t, e=expr: t >> pdt.mutate(z=e.shift(1, arrange=t.i2))))
                     elif op.ftype == Ftype.AGGREGATE:
                         verbs = [
                             ("summarize", lambda t, e=expr: t >> pdt.group_by(t.g) >> pdt.summarize(z=e)),
@@ -260,6 +318,8 @@ def compute(only_ops=None, order=None):
                         outcomes[key] = hashlib.sha1(q1.encode()).hexdigest()[:12]
     if not only_ops or "cast" in only_ops:
         n_cases += compute_casts(tables, outcomes, viol)
+    if not only_ops or "misc" in only_ops:
+        n_cases += compute_misc(tables, outcomes, viol)
     return outcomes, viol, n_cases
 
 
